@@ -87,6 +87,16 @@ def make_items(seed, tier):
         r = rng.sub("warn/%d" % i)
         base = gram.gen_grammar(r, r.range(2, 10))
         add("warning", gram.plant_warning(r, base), r)
+    # many warnings at once (a threshold on their number must not change the outcome)
+    for i in range(1 if quick else 4):
+        r = rng.sub("manywarn/%d" % i)
+        n = r.range(12, 40)
+        text = "cmd " + " | ".join("w%d <UNDEF%d>" % (j, j) for j in range(n)) + ";\n" + "".join("<UNUSED%d> = x%d;\n" % (j, j) for j in range(n))
+        add("warning-many", text, r, dots="none")
+    # hand-written unusual-but-plausible shapes, every shell, fault-free + sampled faults
+    for name, text in gram.shape_corpus():
+        for sh in (gram.SHELLS if not quick else [rng.sub("shape/" + name).choice(gram.SHELLS)]):
+            add("shape:" + name, text, rng.sub("shape/%s/%s" % (name, sh)), shell=sh, fault_mode="sample", dots="none")
     # input dimension only (fault-free + a few sampled faults): structure-aware mutations, token soups
     for i in range(n_mut):
         r = rng.sub("mut/%d" % i)
@@ -376,6 +386,15 @@ def make_plans(item, R, rng, tier):
             lim = 40
         for p in sampled_positions(rp, rng.sub("pos/" + role), lim):
             plans.extend(single_fault_plans(p, rng, full))
+    # persistent hard failure from the first / from the last write on: a retry loop that never gives up shows as a hang
+    for role in ("dest", "stderr"):
+        rp = [p for p in by_role.get(role, []) if p[1] == "write"]
+        if rp:
+            for p in {rp[0], rp[-1]}:
+                plans.append(["fault %s write %d errfrom %s" % (role, p[2], rng.choice(HARD_WRITE))])
+    rp = [p for p in by_role.get("input", []) if p[1] == "read"]
+    if rp:
+        plans.append(["fault input read %d errfrom EIO" % rp[0][2]])
     # sampled double faults: one entry from each of two different positions
     singles = [pl for pl in plans if len(pl) == 1]
     ndouble = min(len(singles), 8 if not full else 60)
